@@ -64,7 +64,7 @@ RxObsInit(c) ==
   [ taken |-> <<>>, arrived |-> 0, stopN |-> -1, stopT |-> -1, retT |-> -1,
     limT |-> -1, now |-> 0, lastTakeT |-> -1, lastDoneT |-> -1, lastCbBT |-> -1, lastUnsatT |-> -1,
     lst |-> [m \in 1..c.M |-> <<>>], ms |-> [m \in 1..c.M |-> MsInit], cbOrder |-> <<>>,
-    stT |-> [m \in 1..c.M |-> -1], nRun |-> 0, nDone |-> 0, nBody |-> 0, nCb |-> 0 ]
+    stT |-> [m \in 1..c.M |-> -1], nRun |-> 0, nDone |-> 0, nBody |-> 0, nCb |-> 0, nFin |-> 0 ]
 
 TakenSet(o) == RangeS(o.taken)
 
@@ -100,6 +100,11 @@ RxFold(c, o, ev) ==
                     !.nRun = IF ev.e = "cb_b" THEN @ + 1 ELSE IF ev.e = "cb_e" THEN @ - 1 ELSE @,
                     !.nCb = IF ev.e = "cb_b" THEN @ + 1 ELSE @,
                     !.nDone = IF ev.e = "cb_e" THEN @ + 1 ELSE @,
+                    !.nFin = LET r == o.ms[ev.m]
+                                 needAck == c.ackable /\ IsValid(c, ev.m) /\ ~MsgC(c, ev.m).ackfail /\ ~FatalHookRaises(c)
+                             IN IF ev.e = "cb_e" /\ (~needAck \/ r.ak > 0 \/ ev.s # "ok") THEN @ + 1
+                                ELSE IF ev.e = "ack" /\ r.cbE > 0 /\ r.ak = 0 /\ needAck /\ r.cbOk THEN @ + 1
+                                ELSE @,
                     !.nBody = IF ev.e = "start" THEN @ + 1 ELSE IF ev.e = "end" THEN @ - 1 ELSE @]
     [] OTHER -> o1
 
@@ -260,7 +265,7 @@ TimeoutBase(o) == Max2(Max2(Max2(ShutdownT(o), o.lastTakeT) + PollPeriod, o.last
 
 Global(c, o, ev) ==
   LET nRun == o.nRun
-      unfinished == Len(o.taken) - o.nDone
+      unfinished == Len(o.taken) - o.nFin
       busy == Max2(o.nRun, o.nBody)
   IN
      (IF c.A > 0 /\ busy > c.A THEN {"C03_Limit"} ELSE {})
